@@ -474,6 +474,24 @@ def override_keeps_base_effects(ctx, prop):
 
 # ---------------------------------------------------------------------------- schedulers
 
+def _spawned_and_awaited(parents, node, fnode) -> bool:
+    """node is the call self.<transmission>(p): it is the argument of <env>.process(...) whose result is yielded, at
+    once or through a local that holds nothing else (t = env.process(...); yield t)"""
+    p1 = parents.get(node)
+    p2 = parents.get(p1)
+    if not (isinstance(p1, ast.Call) and isinstance(p1.func, ast.Attribute) and p1.func.attr == 'process'):
+        return False
+    if isinstance(p2, ast.Yield):
+        return True
+    if isinstance(p2, (ast.Assign, ast.AnnAssign)):
+        tgt = p2.targets[0] if isinstance(p2, ast.Assign) and len(p2.targets) == 1 else getattr(p2, 'target', None)
+        if isinstance(tgt, ast.Name):
+            stores = [n for n in walk_local(fnode) if isinstance(n, ast.Name) and n.id == tgt.id and isinstance(n.ctx, ast.Store)]
+            yields = [n for n in walk_local(fnode) if isinstance(n, ast.Yield) and isinstance(n.value, ast.Name) and n.value.id == tgt.id]
+            return len(stores) == 1 and len(yields) >= 1
+    return False
+
+
 def send_packet_awaited(ctx, prop, only=None):
     """every use of send_packet is `yield <env>.process(self.send_packet(p))`"""
     rule = prop + '.W.send_awaited'
@@ -489,9 +507,7 @@ def send_packet_awaited(ctx, prop, only=None):
             if isinstance(node, ast.Call) and isinstance(node.func, ast.Attribute) and node.func.attr == 'send_packet':
                 n += 1
                 p1 = parents.get(node)
-                p2 = parents.get(p1)
-                ok = isinstance(p1, ast.Call) and isinstance(p1.func, ast.Attribute) and p1.func.attr == 'process' \
-                    and isinstance(p2, ast.Yield)
+                ok = _spawned_and_awaited(parents, node, f.node)
                 if not ok and isinstance(p1, ast.YieldFrom) and f.cls is not None and f.name in transmission_methods(f.cls):
                     # delegated inside a transmission method: that method in turn must be spawned and awaited
                     ok = _all_uses_awaited(ctx.repo, f.cls, f.name)
@@ -518,10 +534,7 @@ def _all_uses_awaited(repo, cls, meth) -> bool:
             if isinstance(node, ast.Call) and isinstance(node.func, ast.Attribute) and node.func.attr == meth \
                     and isinstance(node.func.value, ast.Name) and node.func.value.id == 'self':
                 uses += 1
-                p1 = parents.get(node)
-                p2 = parents.get(p1)
-                if not (isinstance(p1, ast.Call) and isinstance(p1.func, ast.Attribute) and p1.func.attr == 'process'
-                        and isinstance(p2, ast.Yield)):
+                if not _spawned_and_awaited(parents, node, g.node):
                     return False
     return uses > 0
 
@@ -692,6 +705,50 @@ def ack_depends_on_buffer_only(ctx, prop):
                                   'TCPSink.put: the ACK number %s depends on the arriving segment itself; a cumulative ACK is a function of the set received' % e.value,
                                   where='%s:%d' % (f.module.relpath, e.lineno))
     ctx.floor(rule, n, 2, 'ACK assignments')
+
+
+def element_id_defined(ctx, prop):
+    """Hub.put (and the hop stamps) read `endpoint.element_id` of whatever device they are given; the property
+    getter reads `self._element_id`.  Every concrete Device class must therefore have that attribute on every
+    instance: a class-level default somewhere in its MRO, or a store to element_id / _element_id in the __init__ that
+    actually runs for it."""
+    rule = prop + '.S.element_id_defined'
+    dev = ctx.repo.find_class('Device')
+    n = 0
+    for c in ctx.repo.all_classes():
+        if c is dev or dev not in c.mro() or not c.module.name.startswith('onl.'):
+            continue
+        if any(isinstance(d, ast.Name) and d.id == 'ABC' for d in c.node.bases) and not c.methods.get('__init__'):
+            continue
+        n += 1
+        has_default = c.lookup_attr('_element_id') is not None
+        init = c.lookup('__init__')
+        stores = False
+        seen = set()
+        while init is not None and init.node not in seen and not stores:
+            seen.add(init.node)
+            for node in walk_local(init.node):
+                if isinstance(node, ast.Attribute) and isinstance(node.ctx, ast.Store) and node.attr in ('element_id', '_element_id') \
+                        and isinstance(node.value, ast.Name) and node.value.id == 'self':
+                    stores = True
+            # follow super().__init__(...)
+            nxt = None
+            for node in walk_local(init.node):
+                if isinstance(node, ast.Call) and isinstance(node.func, ast.Attribute) and node.func.attr == '__init__' \
+                        and isinstance(node.func.value, ast.Call) and isinstance(node.func.value.func, ast.Name) and node.func.value.func.id == 'super' \
+                        and init.cls is not None:
+                    nxt = c.lookup_after(init.cls, '__init__')
+            init = nxt
+        ok = has_default or stores
+        ctx.ob(rule, ok)
+        construct = '%s::%s' % (c.module.relpath, c.name)
+        if ok:
+            ctx.sample(rule, construct, 'element_id is defined on every instance (%s)' % ('class default' if has_default else 'set by the constructor'))
+        else:
+            ctx.violation(rule, construct, 'element_id undefined',
+                          '%s: no class default and no constructor on its path sets element_id - reading it (Hub.put compares it with the '
+                          'sender of every packet) raises AttributeError' % c.name, where='%s:%d' % (c.module.relpath, c.node.lineno))
+    ctx.floor(rule, n, 10, 'device classes')
 
 
 def ack_offset_constant(ctx, prop):
